@@ -654,6 +654,13 @@ def format_types(ctx, P, rule="FORMAT-TYPES", only=None):
                     continue
                 var = estr(strip(d.kids[0])) if (d.k == "UnaryOperator" and d.op == "&") else "*" + estr(d)
                 why = _used_as_index(P, tu, fn, var)
+                if why is None:
+                    # a QUANTITY (anything but a word of option bits) must not be reduced modulo 2^32 either: the unchecked unit
+                    # is acceptable only for a destination that is used as a flags word
+                    dty = (strip(d.kids[0]).ty or "") if (d.k == "UnaryOperator" and d.op == "&") else ""
+                    is_flags = dty == "tsk_flags_t" or re.search(r"option|flag", var) is not None
+                    if not is_flags:
+                        why = "a quantity of type `%s`, not a word of option bits" % (dty or "?")
                 n += 1
                 ctx.ob(rule, "%s|arg%d:%s|unchecked" % (fn.name, i, u), why is None, tu.loc(pc.call),
                        "format `%s` (no overflow check) fills `%s`, an option / size word" % (u, var) if why is None else
